@@ -377,5 +377,19 @@ def r12_8(ctx):
     from .common import delegate
     delegate(ctx, c02.r02_11, lambda c: c.startswith("Symbol.config_string/"))
 
+def r12_9(ctx):
+    """R12.9 kconfgen's cdep_tree output always runs the sync: write_cdep_tree() reaches config.sync_deps() on every path (the
+    recorded values can be stale although sdkconfig did not change: another tree version, another --env)."""
+    repo = ctx.repo
+    f = repo.func("kconfgen.core:write_cdep_tree")
+    ctx.analysed(f.qual)
+    fl = Flow(f.node, resolver=Resolver(f.node),
+              events=lambda n: ["sync"] if not isinstance(n, (ast.If, ast.For, ast.While, ast.With, ast.Try)) and any(
+                  isinstance(c, ast.Call) and ast.unparse(c.func).endswith(".sync_deps") for c in ast.walk(n)) else []).run()
+    construct = "write_cdep_tree/every way out has run sync_deps"
+    skipping = [sorted((x[1], x[2]) for x in stt if x[0] == "g")[:3] for kind, node, stt in fl.exits
+                if kind in ("return", "fallthrough") and "sync" not in {x[1] for x in stt if x[0] == "ev"}]
+    (ctx.bad(construct, f"returns without syncing under {skipping[0]}: changed options are not flagged", f.loc()) if skipping else ctx.ok(construct, f.loc()))
+
 def rules():
-    return [("R12.8", r12_8, 1), ("R12.7", r12_7, 2), ("R12.1", r12_1, 6), ("R12.2", r12_2, 2), ("R12.3", r12_3, 1), ("R12.4", r12_4, 6), ("R12.5", r12_5, 4), ("R12.6", r12_6, 4)]
+    return [("R12.9", r12_9, 1), ("R12.8", r12_8, 1), ("R12.7", r12_7, 2), ("R12.1", r12_1, 6), ("R12.2", r12_2, 2), ("R12.3", r12_3, 1), ("R12.4", r12_4, 6), ("R12.5", r12_5, 4), ("R12.6", r12_6, 4)]
